@@ -51,6 +51,19 @@ CHECKS = {
                      "first is delivered valid; no-stuffing: frames starting beyond noise+2047+one frame length are delivered; P1: noise and readout-looking prefixes followed by three readouts.",
                 note="Trusted: z3, symx proxies (per-path pristine replay), spec frame/readout builders.",
                 technique="bounded symbolic execution of the real readers on free noise followed by spec-built messages (z3 + linear store)"),
+    "C05": dict(level="model_checking", design="§4 C05",
+                text="Spec-built readouts with free digits (checksums are CRC16 terms over them), with and without checksum, optionally after the tail of a readout, are run through the real "
+                     "ModeDReader for every single cut, a grid of cut pairs (thorough) and line-by-line; concrete-length histories of >= 3 x 8192 octets cross the buffer guard with chunk sizes "
+                     "chosen so that no call starts between two readouts (sweep of readout size x chunk size x first-chunk offset). The solver proves per path that every readout is returned "
+                     "once, byte-identical, valid, in order.",
+                note="Trusted: z3, symx proxies (per-path pristine replay), spec readout builder. Lengths, sizes and chunk sizes are enumerated, not solved for.",
+                technique="bounded symbolic execution of the real P1 reader on spec-built readouts with symbolic digits/checksums; long concrete-length call histories (z3 per path)"),
+    "C19": dict(level="model_checking", design="§4 C19",
+                text="Streams prefix.period^m whose period is 2 (quick) / 3 (thorough) FREE octets - every path is a class of patterns over the whole alphabet (all flags, flag+junk, '/' without LF, "
+                     "...) and the solver decides which classes exist - plus concrete periods (valid frames/readouts back to back, endless data lines, identification lines without end line), total "
+                     "length 5-16 x the maximum message size, several chunk sizes, fed to the real readers; after every read() the octets reachable from the reader minus the chunk must stay <= 3 x M.",
+                note="Trusted: z3, symx proxies (per-path pristine replay). Retained size is counted as octets held in reachable sequences, not sys.getsizeof. No MiB-scale streams.",
+                technique="bounded symbolic execution of the real readers on periodic streams with a symbolic period (z3 decides the pattern classes); size bound checked after every call"),
 }
 
 NOT_YET = {}
